@@ -43,3 +43,14 @@ Theorem C09_sequential_lowest : forall s pe i, sequential s = true -> endgame s 
   forall j p, In (j, p) (cands s (c_unreq_has pe)) -> i <= j.
 Proof. exact sequential_lowest. Qed.
 Print Assumptions C09_sequential_lowest.
+
+(* ---- the real glue (kind 101): after every handler of an accepted history no piece is being
+   downloaded by more peers than max(1, end-game limit), and every new download was legal when it
+   was started: piece neither done nor being written, held by the peer, peer unchoking us or the
+   piece granted as allowed-fast ([legal_new], checked by [assign] for every observed assignment) ---- *)
+From RainV Require Import Leech LeechProofs.
+Theorem C09_duplicates_within_limit_after_every_handler : forall fixed s ev bits asg,
+  let s' := fst (lstep fixed s ev bits asg) in
+  s_bad s' = 0 -> forall i, 0 <= i < np_of s' -> over_dup s' i = false.
+Proof. intros fixed s ev bits asg s' H. apply (step_no_idle fixed s ev bits asg H). Qed.
+Print Assumptions C09_duplicates_within_limit_after_every_handler.
